@@ -312,7 +312,7 @@ def bounds(vars_):
     if k in ("integer",):
       cs.append(v <= 3)
     if k == "e":
-      cs.append(z3.And(v >= -8, v <= 8))
+      cs.append(z3.And(v >= -70, v <= 8))        # small exponents matter: the epsilon floor of the po2 quantizers is 2^-23.25
   return cs
 
 
@@ -321,7 +321,7 @@ def cases(tier):
   for kind in ("fixed", "binary", "po2", "relu_po2", "auto_po2"):
     for wb in (None, "q", "plain"):
       out.append(Case(PROP, MS, "%s_bias%s" % (kind, wb or "none"), export_scenario(kind, wb), bounds=bounds,
-                      replay_kind="c14_export", assumptions=ASSUME, term_mode=True, lo=-20, hi=20))
+                      replay_kind="c14_export", assumptions=ASSUME, term_mode=True, lo=-80, hi=20))
   for kind in ("rnn", "folded", "pool"):
     out.append(Case(PROP, MS, "branch_%s" % kind, special_scenario(kind), bounds=bounds, replay_kind=None,
                     assumptions=ASSUME, term_mode=True))
